@@ -215,7 +215,7 @@ def install2(R):
           raises={"AnyError": dict(ensures=["implies(FnKeepsFS(fn), fs_unchanged())"])},
           notes="summary used where only call order / arguments / FS frame matter")
 
-    R.add(K + "Crop.load_info", cls="Crop", result="V", props=["C12", "C04"],
+    R.add(K + "Crop.load_info", cls="Crop", result="V", props=["C12", "C04", "C06", "C16"],
           ensures=[("content", "result == fs_content(InfoPath(self.location))"), ("frame", "fs_unchanged()")],
           raises={"XYZError": dict(when="not fs_exists(InfoPath(self.location))", ensures=["fs_unchanged()"]),
                   "EOFError": dict(when="fs_exists(InfoPath(self.location)) and not fs_complete(InfoPath(self.location))",
